@@ -787,3 +787,67 @@ contract(
     gen=lambda rng, case: {"self": corr_random(rng), "weight": _native_weight(),
                            "kwargs": {"all_configs": True} if case["kwargs"] == "all" else {}},
 )
+
+
+# ---------------------------------------------------------------------------------------------------
+# C15: the root function of the cosh / sinh effective mass:  f(x, d) = F(x (t - T/2)) / F(x (t + 1 - T/2)) - d
+
+def _root_fn(name, ctx, shape=None):
+    return None
+
+
+def _rf_post(a, r):
+    from pyvc.sym import uf
+    if not isinstance(a.self, SObj):
+        # native: r is the largest residual of the documented equation at the masses m_eff returned
+        return {"documented-ratio": r < 1e-6}
+    F = (lambda z: wrap(uf(a.fname)(treal(z))))
+    T = Tn(a.self)
+    x, d, t = a.x, a.d, a.t
+    # T/2 is a real division (T may be odd)
+    return {"documented-ratio": eq(r, F(x * (t - T / 2)) / F(x * (t + 1 - T / 2)) - d)}
+
+
+def _rf_native(args):
+    """no entry point for the nested function: run m_eff on the correlator and evaluate the documented equation at its result"""
+    import numpy as np
+    c = args["self"]
+    fn = {"cosh": np.cosh, "sinh": np.sinh}[args["fname"]]
+    m = c.m_eff(variant=args["fname"])
+    worst = 0.0
+    for t in range(c.T - 1):
+        if m.content[t] is None or c.content[t] is None or c.content[t + 1] is None:
+            continue
+        if args["fname"] == "sinh" and t in [c.T / 2, c.T / 2 - 1]:
+            continue
+        x = m.content[t][0].value
+        res = fn(x * (t - c.T / 2)) / fn(x * (t + 1 - c.T / 2)) - c.content[t][0].value / c.content[t + 1][0].value
+        worst = max(worst, abs(float(res)))
+    return worst
+
+
+def _rf_gen(rng, case):
+    import numpy as np
+    T = rng.choice([8, 9, 12, 13])
+    mass = rng.choice([0.2, 0.35, 0.5])
+    fn = {"cosh": np.cosh, "sinh": np.sinh}[case["fname"]]
+    vals = [float(3.0 * fn(mass * (t - T / 2))) for t in range(T)]
+    vals = [v if abs(v) > 1e-12 else None for v in vals]
+    return {"x": 0.0, "d": 0.0, "self": native_corr(vals), "t": 0, "fname": case["fname"], "func": None}
+
+
+def _rf_pre(interp, mod, fnode, args):
+    from pyvc.interp import LibFn
+    args["func"] = LibFn("anp." + args["fname"])
+
+
+contract(
+    REL + "::Corr.m_eff::root_function", props=["C15"], lib="obs",
+    params=dict(x=Real(), d=Real(), self=CorrSpec(min_T=2), t=Int(lo=0), fname=OneOf(cosh=Const("cosh"), sinh=Const("sinh")),
+                func=Custom(lambda n, c, s: None)),
+    pre_execute=_rf_pre,
+    ensures=_rf_post,
+    native_call=_rf_native, gen=_rf_gen, crosscheck=False, refute=False,
+    slice_note="nested function of m_eff (variants cosh / periodic / sinh); its free variables func, t, self are parameters",
+    note="the per-timeslice solve is find_root (C09, assumed); this obligation pins the equation that is solved",
+)
